@@ -1,5 +1,7 @@
 package in_toto
 
+import "strings"
+
 // C18 — parameter substitution rewrites exactly the marked places; C10 (part)
 // — SubstituteParameters leaves the caller's layout untouched.
 
@@ -195,3 +197,88 @@ func vh_C10_subst_nomutation(a []int) {
 	}
 	vReach("C10.end")
 }
+
+// vh_C10_subst_order: the substituted layout is a function of the dictionary's content, not of the order in
+// which Go walks it - also when a parameter's value looks like another parameter's marker.  The same call is
+// made twice under two independent symbolic iteration orders; both results must be the single left-to-right
+// pass of the documented semantics.
+// a = {#parameters (2..3)}
+func vh_C10_subst_order(a []int) {
+	dict := map[string]string{"A": vPick("va", "{B}", "x{B}y", "plain"), "B": vPick("vb", "{A}", "two", "")}
+	if a[0] > 2 {
+		dict["C"] = vPick("vc", "{A}{B}", "three")
+	}
+	text := vConcStr(vPick("text", "{A}", "{A}{B}", "-{B}-{A}-", "{C}{A}", "{{A}}"))
+	layout := Layout{Type: "layout", Steps: []Step{{Type: "step", ExpectedCommand: []string{text, "fixed"},
+		SupplyChainItem: SupplyChainItem{Name: "s", ExpectedMaterials: [][]string{{"ALLOW", text}}, ExpectedProducts: [][]string{{"MATCH", text, "WITH", "PRODUCTS", "FROM", text}}}}},
+		Inspect: []Inspection{{Type: "inspection", Run: []string{"sh", text}, SupplyChainItem: SupplyChainItem{Name: "i"}}}}
+	want := vspecSubstOnce(text, dict)
+	r1, e1 := SubstituteParameters(layout, dict)
+	r2, e2 := SubstituteParameters(layout, dict)
+	vObserve("subst-order", e1 == nil, e2 == nil)
+	vAssert("C10.substitution-succeeds", e1 == nil && e2 == nil)
+	if e1 == nil && e2 == nil {
+		for _, r := range []Layout{r1, r2} {
+			vAssert("C10.substitution-does-not-depend-on-the-dictionary-order", r.Steps[0].ExpectedCommand[0] == want && r.Steps[0].ExpectedCommand[1] == "fixed" &&
+				r.Steps[0].ExpectedMaterials[0][1] == want && r.Steps[0].ExpectedProducts[0][1] == want && r.Steps[0].ExpectedProducts[0][5] == want && r.Inspect[0].Run[1] == want)
+		}
+	}
+	vReach("C10.end")
+}
+
+func init() { vhRegister("vh_C10_subst_order", vh_C10_subst_order) }
+
+// vspecSubstOnce: one pass from left to right; at each position the marker of a supplied parameter is replaced
+// by its value and the scan continues after the marker (inserted text is never looked at again)
+func vspecSubstOnce(text string, dict map[string]string) string {
+	want := ""
+	for i := 0; i < len(text); {
+		hit := false
+		for _, name := range []string{"A", "B", "C"} {
+			v, ok := dict[name]
+			m := "{" + name + "}"
+			if ok && strings.HasPrefix(text[i:], m) {
+				want += vConcStr(v)
+				i += len(m)
+				hit = true
+				break
+			}
+		}
+		if !hit {
+			want += text[i : i+1]
+			i++
+		}
+	}
+	return want
+}
+
+// vh_C18_shared: layouts built in code may use one slice value in several places (the same command for two
+// steps, the same rule list for materials and products).  Every place gets the single-pass result exactly once
+// and the caller's slices keep their markers.
+func vh_C18_shared(a []int) {
+	dict := map[string]string{"A": vPick("va", "{B}", "x{B}y", "plain"), "B": vPick("vb", "two", "{A}")}
+	text := vConcStr(vPick("text", "{A}", "a{A}{A}b", "{B}{A}"))
+	cmd := []string{text, "build"}
+	rules := [][]string{{"ALLOW", text}, {"DISALLOW", "*"}}
+	layout := Layout{Type: "layout",
+		Steps: []Step{{Type: "step", ExpectedCommand: cmd, SupplyChainItem: SupplyChainItem{Name: "s1", ExpectedMaterials: rules, ExpectedProducts: rules}},
+			{Type: "step", ExpectedCommand: cmd, SupplyChainItem: SupplyChainItem{Name: "s2", ExpectedMaterials: rules}}},
+		Inspect: []Inspection{{Type: "inspection", Run: cmd, SupplyChainItem: SupplyChainItem{Name: "i", ExpectedProducts: rules}}}}
+	want := vspecSubstOnce(text, dict)
+	r, err := SubstituteParameters(layout, dict)
+	vObserve("shared", err == nil)
+	vAssert("C18.shared-substitution-succeeds", err == nil)
+	if err == nil {
+		ok := true
+		for _, st := range r.Steps {
+			ok = ok && len(st.ExpectedCommand) == 2 && st.ExpectedCommand[0] == want && st.ExpectedCommand[1] == "build" &&
+				len(st.ExpectedMaterials) == 2 && st.ExpectedMaterials[0][1] == want && st.ExpectedMaterials[1][1] == "*"
+		}
+		ok = ok && r.Steps[0].ExpectedProducts[0][1] == want && r.Inspect[0].Run[0] == want && r.Inspect[0].ExpectedProducts[0][1] == want
+		vAssert("C18.every-place-gets-the-single-pass-result-exactly-once", ok)
+	}
+	vAssert("C18.the-callers-slices-keep-their-markers", cmd[0] == text && rules[0][1] == text && layout.Steps[1].ExpectedCommand[0] == text)
+	vReach("C18.end")
+}
+
+func init() { vhRegister("vh_C18_shared", vh_C18_shared) }
